@@ -108,6 +108,13 @@ func TestC10(t *testing.T) {
 			if rand.Intn(3) == 0 {
 				jrpc2.ServerFromContext(ctx).Notify(ctx, "n", []int{1})
 			}
+			if rand.Intn(4) == 0 {
+				// pre-encoded parameters that are not one well-formed JSON value must be refused, not sent
+				bad := []string{`{"file":"odd"name.txt"}`, `[1,2,`, `{"a":1}}`, `[1][2]`}[rand.Intn(4)]
+				if err := jrpc2.ServerFromContext(ctx).Notify(ctx, "n", json.RawMessage(bad)); err == nil {
+					sch.st.problem("malformed pre-encoded params were accepted by Server.Notify: %s", bad)
+				}
+			}
 			return "ok", nil
 		}, "raw": func(ctx context.Context, req *jrpc2.Request) (any, error) {
 			return json.RawMessage(`{"items":[1,2,}`), nil // a pre-encoded result that is not valid JSON
